@@ -382,6 +382,53 @@ def goodAbs2 : Tmpl :=
     toks := [.lp, .op .sub, .num "1.0", .rp, .op .mul, .lp, .lp, .op .sub, .num "1.0", .rp, .op .mul, .lp, .hole 0, .rp, .rp] }
 example : negOK 2 [goodAbs2] = true := by decide +kernel
 
+/-! ### Forward overloads as build steps: no algebraic rewriting when the tree is built
+
+`e X k` with a number literal `k` calls `type(e).__X__(e, k)`.  The probe calls every forward overload
+(`__add__ __sub__ __mul__ __truediv__ __mod__ __pow__` and the six comparisons) on an instance of every operator class — once
+with placeholder operands and, for the classes that take two operands, once with a NUMBER as second operand, so that a
+rewrite keyed on "both are literals" is reached — and records the text with the text of `e` itself replaced by `hole 0`
+and the literal by `hole 1` (one generated table per overload).  The row must be `hole 0 X hole 1`. -/
+
+def fwdRowOK (k : BinOp) (t : Tmpl) : Bool :=
+  beqPy (erase (shapeOf t)) (.bin k h0 h1) || (commutes k && beqPy (erase (shapeOf t)) (.bin k h1 h0))
+
+def fwdOK (k : BinOp) (T : Table) : Bool := T.all (fwdRowOK k)
+
+/-- **a forward build denotes `e X k` with `e` as a unit** (for `+`/`*` possibly with the operands exchanged) -/
+theorem fwd_build_denotes (k : BinOp) (T : Table) (h : fwdOK k T = true) (t : Tmpl) (ht : t ∈ T)
+    (α : Type) (C : Carrier α) (ρ : Nat → α) :
+    eval C ρ (shapeOf t) = C.bin k (ρ 0) (ρ 1) ∨
+    (commutes k = true ∧ eval C ρ (shapeOf t) = C.bin k (ρ 1) (ρ 0)) := by
+  unfold fwdOK at h
+  rw [List.all_eq_true] at h
+  have := h t ht
+  simp only [fwdRowOK, Bool.or_eq_true, Bool.and_eq_true] at this
+  rcases this with h1' | ⟨hc, h2'⟩
+  · left
+    rw [← eval_erase C ρ (shapeOf t), beqPy_eq _ _ h1']
+    simp [eval, h0, h1]
+  · right
+    refine ⟨hc, ?_⟩
+    rw [← eval_erase C ρ (shapeOf t), beqPy_eq _ _ h2']
+    simp [eval, h0, h1]
+
+/-- witness: `(x ** 2.0) ** 7.5` built as ONE power `x ** 15.0` (the identity (x^m)^n = x^(mn) applied at build time) — the
+operand `x ** 2.0` is not used as a unit, the row is refused -/
+def foldedPow : Tmpl :=
+  { cls := "PowerOperator", arity := 2,
+    toks := [.lp, .lp, .hole 0, .rp, .op .pow, .lp, .num "15.0", .rp, .rp] }
+theorem C02_witness_pow_fold : fwdOK .pow [foldedPow] = false := by decide +kernel
+
+/-- … and the identity is false outside its domain: over ℤ with `x ^ (1/2)` read as the integer square root of a square,
+`((-3)^2)^(1/2) = 3` but `(-3)^(2·(1/2)) = (-3)^1 = -3` -/
+theorem pow_fold_outside_domain : Int.ofNat (Nat.sqrt (((-3 : Int) ^ 2).toNat)) ≠ (-3 : Int) ^ 1 := by decide
+
+def goodPow : Tmpl :=
+  { cls := "PowerOperator", arity := 2,
+    toks := [.lp, .lp, .hole 0, .rp, .op .pow, .lp, .hole 1, .rp, .rp] }
+example : fwdOK .pow [goodPow] = true := by decide +kernel
+
 /-- every class of the C02 vocabulary is present in the table -/
 def vocabulary : List String :=
   ["AdditionOperator", "SubtractionOperator", "MultiplicationOperator", "DivisionOperator", "ModOperator",
@@ -478,6 +525,8 @@ example : tableOK L demoTable = true ∧ specOK demoTable = true ∧
 #print axioms C02_parse_complete
 #print axioms refl_build_denotes
 #print axioms neg_build_denotes
+#print axioms fwd_build_denotes
+#print axioms C02_witness_pow_fold
 #print axioms C02_witness_neg_fold
 #print axioms C02_witness_rpow_swapped
 #print axioms C02_parse_decides
